@@ -264,7 +264,10 @@ pub fn evaluate_isolated(prop: Prop, trace: &Trace) -> Isolated {
         Status::Signaled(s) => Some(s),
     };
     if let Some(sig) = died {
-        let legit_abort = sig == 6 && oom_marker && trace.cfg.fail_at != 0;
+        // The one legitimate death: std's handle_alloc_error after an injected
+        // failure (Vec growth, Box::new). It announces itself on stderr.
+        let alloc_error_msg = text.contains("memory allocation of ") && text.contains(" bytes failed");
+        let legit_abort = sig == 6 && oom_marker && alloc_error_msg && trace.cfg.fail_at != 0;
         if legit_abort {
             res.probes.hit("oom_landed_in_vec_or_box_abort");
             res.executions = res.executions.max(1);
